@@ -20,6 +20,36 @@ func (it *Interp) timeArg(v Value) Value {
 	panic(unsupported(fmt.Sprintf("expected time.Time, got %T at %s", v, it.where())))
 }
 
+// timeVal is timeArg keeping the location flag.
+func (it *Interp) timeVal(v Value) TimeV {
+	it.checkPoison(v)
+	switch x := v.(type) {
+	case TimeV:
+		return x
+	case *Ptr:
+		return it.timeVal(it.load(x))
+	}
+	panic(unsupported(fmt.Sprintf("expected time.Time, got %T at %s", v, it.where())))
+}
+
+// tzOffset is the node-local time zone offset in seconds: an environment input (one per path), east of UTC positive.
+func (it *Interp) tzOffset() Value {
+	if v, ok := it.store["env.tz"]; ok {
+		return v
+	}
+	v := it.anyRange("env.tzOffsetSeconds", big.NewInt(-12*3600), big.NewInt(14*3600), "int64")
+	it.store["env.tz"] = v
+	return v
+}
+
+// wallNS is the instant whose UTC calendar fields equal the calendar fields of t in its own location.
+func (it *Interp) wallNS(t TimeV) Value {
+	if !t.Local {
+		return t.NS
+	}
+	return mkAdd(t.NS, mkMul(it.tzOffset(), nsPerSec))
+}
+
 // yearStartsTerm builds (once per path) an ite chain year(ns) for 1970..2400 from a static table of year starts.
 func (it *Interp) yearOf(ns Value) Value {
 	if b, ok := ns.(*big.Int); ok {
@@ -61,9 +91,10 @@ func (it *Interp) yearOf(ns Value) Value {
 func registerTime(P *Program) {
 	const TT = "(time.Time)."
 	P.reg("time.Unix", func(it *Interp, a []Value) Value {
-		return TimeV{NS: mkAdd(mkMul(a[0], nsPerSec), a[1])}
+		return TimeV{NS: mkAdd(mkMul(a[0], nsPerSec), a[1]), Local: true}
 	})
-	P.reg("time.UnixMilli", func(it *Interp, a []Value) Value { return TimeV{NS: mkMul(a[0], big.NewInt(1000000))} })
+	P.reg("time.UnixMilli", func(it *Interp, a []Value) Value { return TimeV{NS: mkMul(a[0], big.NewInt(1000000)), Local: true} })
+	P.reg("time.UnixMicro", func(it *Interp, a []Value) Value { return TimeV{NS: mkMul(a[0], big.NewInt(1000)), Local: true} })
 	P.reg("time.Now", func(it *Interp, a []Value) Value { return PoisonV{Why: "time.Now (wall clock): only usable by telemetry"} })
 	P.reg("time.Date", func(it *Interp, a []Value) Value {
 		t := time.Date(int(asBig(a[0]).Int64()), time.Month(asBig(a[1]).Int64()), int(asBig(a[2]).Int64()), int(asBig(a[3]).Int64()),
@@ -82,14 +113,17 @@ func registerTime(P *Program) {
 		return divRange(r, ns, big.NewInt(1000000))
 	})
 	P.reg(TT+"UTC", func(it *Interp, a []Value) Value { return TimeV{NS: it.timeArg(a[0])} })
-	P.reg(TT+"Local", func(it *Interp, a []Value) Value { return TimeV{NS: it.timeArg(a[0])} })
+	P.reg(TT+"Local", func(it *Interp, a []Value) Value { return TimeV{NS: it.timeArg(a[0]), Local: true} })
 	P.reg(TT+"Round", func(it *Interp, a []Value) Value {
 		if asBig(a[1]).Sign() == 0 {
-			return TimeV{NS: it.timeArg(a[0])}
+			return it.timeVal(a[0])
 		}
 		panic(unsupported("time.Round"))
 	})
-	P.reg(TT+"Add", func(it *Interp, a []Value) Value { return TimeV{NS: mkAdd(it.timeArg(a[0]), a[1])} })
+	P.reg(TT+"Add", func(it *Interp, a []Value) Value {
+		t := it.timeVal(a[0])
+		return TimeV{NS: mkAdd(t.NS, a[1]), Local: t.Local}
+	})
 	P.reg(TT+"Sub", func(it *Interp, a []Value) Value {
 		d := mkSub(it.timeArg(a[0]), it.timeArg(a[1]))
 		// time.Sub saturates at the Duration range
@@ -109,7 +143,7 @@ func registerTime(P *Program) {
 	P.reg(TT+"Equal", func(it *Interp, a []Value) Value { return mkCmp("=", it.timeArg(a[0]), it.timeArg(a[1])) })
 	P.reg(TT+"Compare", func(it *Interp, a []Value) Value { return mkCmp3(it.timeArg(a[0]), it.timeArg(a[1])) })
 	P.reg(TT+"IsZero", func(it *Interp, a []Value) Value { return mkCmp("=", it.timeArg(a[0]), zeroTimeNS) })
-	P.reg(TT+"Year", func(it *Interp, a []Value) Value { return it.yearOf(it.timeArg(a[0])) })
+	P.reg(TT+"Year", func(it *Interp, a []Value) Value { return it.yearOf(it.wallNS(it.timeVal(a[0]))) })
 	P.reg(TT+"String", func(it *Interp, a []Value) Value { return symStrMark + "time" })
 	P.reg(TT+"Format", func(it *Interp, a []Value) Value { return symStrMark + "time" })
 	P.reg("(time.Duration).Seconds", func(it *Interp, a []Value) Value { panic(unsupported("Duration.Seconds (float)")) })
